@@ -3,7 +3,7 @@
    transform-origin product, the use / viewport transform composition, the radius clamp divisors),
    Gen/LeafViewBox.v (to_transform), Gen/SvgTables.v (EId).  Hand model: Model/Structure.v, tied by the
    `use-convert`, `switch`, `transform-origin`, `rect-radii` correspondences of tools/props/c10.py. *)
-From Coq Require Import String.
+From Coq Require Import String Ascii.
 From RV Require Import Model.Base Model.GeomPrims Model.ViewBoxSpec Gen.SvgTables Gen.StructTables Gen.LeafViewBox.
 From RV Require Import Model.Structure Proofs.Structure.
 From RV Require Import Model.ShapePath Gen.ShapePaths Proofs.ShapePath Gen.UseClip.
@@ -213,28 +213,54 @@ Print Assumptions C10_rect_as_path.
 
 (* ---- use -> symbol as groups; the viewport clip decision (Gen/UseClip.v is transcribed from use_node.rs) ---------- *)
 (* a use of a symbol = group(use transform, use style) > viewport clip > group(translate(x, y) . viewBox transform, symbol
-   style) > copy: same accumulated opacity and transform for the content, same clips above it in the same coordinate
-   systems - outside the known class use-symbol-style-in-parent-space *)
+   style) > copy: same accumulated opacity and transform for the content, same clips / masks / filters above it in the same
+   coordinate systems - for ALL inputs (full strength since 214a8de; former class use-symbol-style-in-parent-space, whose
+   witness is a must-pass pair of the oracle) *)
 Theorem C10_use_symbol_as_groups : forall id orig_ts new_ts st sym_st clip k sh,
-  use_symbol_known_class clip st orig_ts = false ->
   match cleaves_of (convert_use_symbol id orig_ts new_ts st sym_st clip [TLeaf k sh]),
         cleaves_of (expand_use_symbol id orig_ts new_ts st sym_st clip [TLeaf k sh]) with
   | [(i, o, t, c)], [(j, p, u, d)] => i = j /\ (o == p)%Q /\ ts_eq t u /\ clip_set_eq c d
   | _, _ => False
   end.
-Proof. exact use_symbol_as_groups_guarded. Qed.
+Proof. exact use_symbol_as_groups. Qed.
 Print Assumptions C10_use_symbol_as_groups.
-(* ... inside the class the clause is violated (reproduced on the real code, see known_findings proposal) *)
-Theorem C10_use_symbol_as_groups_refuted :
-  exists id orig_ts new_ts st sym_st clip k sh,
-    use_symbol_known_class clip st orig_ts = true /\
-    ~ match cleaves_of (convert_use_symbol id orig_ts new_ts st sym_st clip [TLeaf k sh]),
-            cleaves_of (expand_use_symbol id orig_ts new_ts st sym_st clip [TLeaf k sh]) with
-      | [(i, o, t, c)], [(j, p, u, d)] => i = j /\ (o == p)%Q /\ ts_eq t u /\ clip_set_eq c d
-      | _, _ => False
-      end.
-Proof. exact use_symbol_as_groups_refuted. Qed.
-Print Assumptions C10_use_symbol_as_groups_refuted.
+Theorem C10_use_symbol_effect_order : forall id orig_ts new_ts st sym_st k sh,
+  match cleaves_of (convert_use_symbol id orig_ts new_ts st sym_st None [TLeaf k sh]),
+        cleaves_of (expand_use_symbol id orig_ts new_ts st sym_st None [TLeaf k sh]) with
+  | [(_, _, _, c)], [(_, _, _, d)] => clip_list_eq c d
+  | _, _ => False
+  end.
+Proof. exact use_symbol_effect_order. Qed.
+Print Assumptions C10_use_symbol_effect_order.
+(* with a viewport clip the use's filter ends up INSIDE the viewport clip (candidate defect, reproduced on the real code) *)
+Theorem C10_use_symbol_filter_order_refuted :
+  exists id orig_ts new_ts st sym_st c k sh,
+    map fst (match cleaves_of (convert_use_symbol id orig_ts new_ts st sym_st (Some c) [TLeaf k sh]) with [(_, _, _, l)] => l | _ => [] end)
+      = [(0%N, c); (2%N, 3%N)] /\
+    map fst (match cleaves_of (expand_use_symbol id orig_ts new_ts st sym_st (Some c) [TLeaf k sh]) with [(_, _, _, l)] => l | _ => [] end)
+      = [(2%N, 3%N); (0%N, c)].
+Proof. exact use_symbol_filter_order_refuted. Qed.
+Print Assumptions C10_use_symbol_filter_order_refuted.
+(* inheritance through use: expanding every use (any nesting, any chain length) by a group leaves every resolved property
+   unchanged, and a chain of n uses hands its target the innermost value set along the chain *)
+Theorem C10_inherit_through_use : forall e inh, resolved inh (expand_uses e) = resolved inh e.
+Proof. exact resolved_expand. Qed.
+Print Assumptions C10_inherit_through_use.
+Theorem C10_inherit_use_chain : forall owns target inh,
+  resolved inh (use_chain owns target) = resolved (chain_value owns inh) target.
+Proof. exact resolved_chain. Qed.
+Print Assumptions C10_inherit_use_chain.
+(* systemLanguage: a language of the list matches iff the user has it exactly, or has the part before its FIRST '-' *)
+Theorem C10_lang_matches : forall user lang,
+  lang_matches user lang = true <->
+  In lang user \/ exists p, prefix_before_dash lang = Some p /\ In p user.
+Proof. exact lang_matches_iff. Qed.
+Print Assumptions C10_lang_matches.
+Theorem C10_lang_prefix : forall lang p,
+  prefix_before_dash lang = Some p <->
+  (exists rest, lang = (p ++ String "-"%char rest)%string) /\ prefix_before_dash p = None.
+Proof. exact prefix_before_dash_spec. Qed.
+Print Assumptions C10_lang_prefix.
 Theorem C10_viewport_clip_decision : forall (is_svg : bool) (ov : option string) us0 us1 hw hh x y w h,
   let off := match ov with Some o => existsb (String.eqb o) ["visible"; "auto"]%string | None => false end in
   let size := if is_svg then override_size us0 us1 {| sw := w; sh := h |} else {| sw := w; sh := h |} in
@@ -282,10 +308,13 @@ Example C10_nv_rect_round :
   /\ convert_rect 0 0 0 30 None None = None.
 Proof. vm_compute. split; reflexivity. Qed.
 Example C10_nv_use_symbol :
-  use_symbol_known_class (Some 9%N) ex_st (from_translate 50 0) = false /\
   cleaves_of (convert_use_symbol 3%N (from_translate 50 0) (from_scale 2 2) ex_st plain (Some 9%N) [TLeaf 7%N 1%N])
   = [(7%N, (1 * 1 * (1 # 2) * 1)%Q, ts_concat (ts_concat (ts_concat ts_identity (from_translate 50 0)) ts_identity) (from_scale 2 2),
-      [(9%N, ts_concat ts_identity (from_translate 50 0))])] /\
+      [(0%N, 9%N, ts_concat ts_identity (from_translate 50 0))])] /\
   get_clip_rect true None None None true false 1 2 30 40 = None /\
   get_clip_rect true (Some "hidden") (Some 5) None false false 1 2 30 40 = Some {| rx := 1; ry := 2; rw := 5; rh := 40 |}.
 Proof. repeat split. Qed.
+Example C10_nv_inherit_chain :
+  resolved 1%N (use_chain [Some 2%N; None; Some 5%N; None; None] (IGroup None [ILeaf 7%N None; ILeaf 8%N (Some 9%N)]))
+  = [(7%N, 5%N); (8%N, 9%N)].
+Proof. reflexivity. Qed.
